@@ -122,4 +122,96 @@ def LazySt.get (l : LazySt) (idx : Int) : LazySt × Bool :=
     let l' := l.fill idx.toNat (idx.toNat + 2)
     (l', decide (idx.toNat < l'.pulled))
 
+/-! ### Access traces: which indexes `renderwb` asks the sequence for, in order.
+
+Success of `sequence[i]` depends only on `i` and the true length, never on what
+was pulled before, so control flow is that of `opt`/`window` above and the
+accesses can be listed next to the results. -/
+
+inductive Acc where
+  | get (i : Int)      -- sequence[i]
+  | len                -- len(sequence)  (pulls everything; diverges if unbounded)
+  deriving Repr, DecidableEq
+
+/-- `try: sequence[i] except: x = len(sequence)` -/
+def probeT (s : Seq) (i : Int) : List Acc :=
+  if probe s i then [.get i] else [.get i, .len]
+
+/-- `opt` together with its accesses. -/
+def optT (start end_ size orphan : Int) (s : Seq) : (Int × Int × Int) × List Acc :=
+  let size := if size < 1 then
+      (if start > 0 ∧ end_ > 0 ∧ end_ ≥ start then end_ + 1 - start else 7)
+    else size
+  if start > 0 then
+    let t1 := probeT s (start - 1)
+    let start := if probe s (start - 1) then start else s.len
+    if end_ > 0 then
+      ((start, (if end_ < start then start else end_), size), t1)
+    else
+      let e := start + size - 1
+      ((start, (if probe s (e + orphan - 1) then e else s.len), size), t1 ++ probeT s (e + orphan - 1))
+  else if end_ > 0 then
+    let e := if probe s (end_ - 1) then end_ else s.len
+    let st := e + 1 - size
+    (((if st - 1 < orphan then 1 else st), e, size), probeT s (end_ - 1))
+  else
+    let e := 1 + size - 1
+    ((1, (if probe s (e + orphan - 1) then e else s.len), size), probeT s (e + orphan - 1))
+
+def windowT (start end_ size orphan : Int) (s : Seq) : (Int × Int × Int) × List Acc :=
+  let ((st, e, sz), t) := optT start end_ size orphan s
+  ((st, (if probe s (e - 1) then e else s.len), sz), t ++ probeT s (e - 1))
+
+/-- the batch-information probes done on the first and on the last displayed element -/
+def linkT (st e sz orphan overlap : Int) (s : Seq) : List Acc :=
+  (if st - 1 > 0 then (optT 0 (st - 1 + overlap) sz orphan s).2 else []) ++
+  [.get e] ++
+  (if probe s e then (optT (e + 1 - overlap) 0 sz orphan s).2 else [])
+
+/-- accesses of the main loop `for index in range(first, end)`; `k` counts the
+remaining iterations, `index` the current 0-based index. -/
+def loopT (st e sz orphan overlap : Int) (s : Seq) : Nat → Int → List Acc
+  | 0, _ => []
+  | k + 1, index =>
+    (if index = st - 1 ∨ index = e - 1 then linkT st e sz orphan overlap s else []) ++
+    [.get index] ++ loopT st e sz orphan overlap s k (index + 1)
+
+/-- every access `renderwb` makes to the sequence (no sort/reverse, no
+`previous`/`next` attribute, no guard): emptiness test, `opt`, clamp, loop. -/
+def renderwbT (start end_ size orphan overlap : Int) (s : Seq) : List Acc :=
+  if probe s 0 then
+    let ((st, e, sz), t) := windowT start end_ size orphan s
+    [.get 0] ++ t ++ loopT st e sz orphan overlap s (e - (st - 1)).toNat (st - 1)
+  else [.get 0]
+
+/-- unbatched rendering (`renderwob`): emptiness test, `len`, then every index once -/
+def renderwobT (s : Seq) : List Acc :=
+  if probe s 0 then
+    [.get 0, .len] ++ (List.range s.len.toNat).map (fun (i : Nat) => Acc.get (Int.ofNat i))
+  else [.get 0]
+
+/-- high-water mark of a trace: 1 + the largest non-negative index asked for -/
+def hw : List Acc → Nat
+  | [] => 0
+  | .get i :: t => max (if i < 0 then 0 else i.toNat + 1) (hw t)
+  | .len :: t => hw t
+
+def hasLen : List Acc → Bool
+  | [] => false
+  | .get _ :: t => hasLen t
+  | .len :: _ => true
+
+/-- `len(seq)` on the wrapper: pull until exhausted (bounded sources only; on an
+unbounded source the real code does not return — modelled as no change and
+flagged by `hasLen`). -/
+def LazySt.lenOp (l : LazySt) : LazySt :=
+  match l.src with
+  | some n => l.fill n (n + 2)
+  | none => l
+
+def LazySt.run (l : LazySt) : List Acc → LazySt
+  | [] => l
+  | .get i :: t => ((l.get i).1).run t
+  | .len :: t => (l.lenOp).run t
+
 end DTML.Batch
